@@ -78,6 +78,31 @@ static void gen(const char* dir)
             ZSTD_freeCCtx(c); free(dst); }
         free(x); free(sq);
     }
+    /* dictionary-straddling matches in tiny frames: a match that starts in the dictionary and runs on into the frame's own first bytes (offset < match length at
+     * position ~0), close to the end of the output, so that the decoder's end-of-buffer sequence execution has to stitch the two segments; parses forged through
+     * ZSTD_compressSequences (raw-content dictionary) and the same inputs through ZSTD_compress2 */
+    long const nstraddle = v_opt_long("nstraddle", 160);
+    for (long i = 0; i < nstraddle; i++) {
+        size_t const dl = 8 + vr_u(&r, vr_chance(&r, 1, 2) ? 60 : 3000); uint8_t* dict = (uint8_t*)malloc(dl); vr_fill(&r, dict, dl); if (dict[0] == 0x37 && dict[1] == 0xA4 && dict[2] == 0x30 && dict[3] == 0xEC) dict[0] ^= 1;
+        uint8_t x[400]; ZSTD_Sequence sq[8]; size_t ns = 0, pos = 0;
+        int const nseq = 1 + (int)vr_u(&r, 3);
+        for (int q = 0; q < nseq; q++) {
+            uint32_t const ll = q == 0 ? vr_u(&r, 4) : vr_u(&r, 6); vr_fill(&r, x + pos, ll); pos += ll;
+            size_t const back = 1 + vr_u64(&r, V_MIN(dl, (size_t)24)); size_t const off = pos + back;                 /* starts `back` bytes before the end of the dictionary */
+            uint32_t const ml = (uint32_t)(back + (vr_chance(&r, 1, 5) ? 0 : 1 + vr_u(&r, 40))); if (ml < 3) { pos -= ll; continue; }
+            for (uint32_t k = 0; k < ml; k++) { size_t const from = pos + k; x[from] = (from < off) ? dict[dl - (off - from)] : x[from - off]; }
+            pos += ml; sq[ns].offset = (unsigned)off; sq[ns].litLength = ll; sq[ns].matchLength = ml; sq[ns].rep = 0; ns++;
+        }
+        {   uint32_t const tail = vr_chance(&r, 1, 2) ? 0 : vr_u(&r, 34); vr_fill(&r, x + pos, tail); pos += tail; sq[ns].offset = 0; sq[ns].litLength = tail; sq[ns].matchLength = 0; sq[ns].rep = 0; ns++; }
+        if (ns > 1) { uint8_t dst[1024];
+            for (int how = 0; how < 2; how++) { ZSTD_CCtx* c = ZSTD_createCCtx(); size_t cs;
+                ZSTD_CCtx_setParameter(c, ZSTD_c_checksumFlag, (int)vr_u(&r, 2)); ZSTD_CCtx_setParameter(c, ZSTD_c_contentSizeFlag, 1); ZSTD_CCtx_loadDictionary_advanced(c, dict, dl, ZSTD_dlm_byRef, ZSTD_dct_rawContent);
+                if (how == 0) { ZSTD_CCtx_setParameter(c, ZSTD_c_minMatch, 3); ZSTD_CCtx_setParameter(c, ZSTD_c_blockDelimiters, ZSTD_sf_explicitBlockDelimiters); ZSTD_CCtx_setParameter(c, ZSTD_c_validateSequences, 1); ZSTD_CCtx_setParameter(c, ZSTD_c_compressionLevel, (int)vr_range(&r, 1, 9)); cs = ZSTD_compressSequences(c, dst, sizeof dst, sq, ns, x, pos); }
+                else { ZSTD_CCtx_setParameter(c, ZSTD_c_compressionLevel, (int)vr_range(&r, 1, 19)); ZSTD_CCtx_setParameter(c, ZSTD_c_minMatch, 3); cs = ZSTD_compress2(c, dst, sizeof dst, x, pos); }
+                if (!ZSTD_isError(cs)) { spit(dir, id, "", dst, cs); spit(dir, id, ".src", x, pos); spit(dir, id, ".dict", dict, dl); id++; printf("STRADDLE\t%ld\t%d\n", i, how); }
+                ZSTD_freeCCtx(c); } }
+        free(dict);
+    }
     printf("GEN\t%ld\n", id);
 }
 
@@ -117,6 +142,15 @@ static void run_paths(const char* dir)
         ZSTD_DCtx* d = ZSTD_createDCtx(); ZSTD_DDict* dd = dict ? ZSTD_createDDict(dict, dl) : NULL;
         #define PREP() do { ZSTD_DCtx_reset(d, ZSTD_reset_session_and_parameters); ZSTD_DCtx_setParameter(d, ZSTD_d_windowLogMax, 31); if (dict) ZSTD_DCtx_loadDictionary(d, dict, dl); } while (0)
         {   PREP(); size_t const ret = ZSTD_decompressDCtx(d, out, cap, F.p, fs); emit(id, "oneshot", ret, out, ret); }
+        {   /* destination of exactly the content size (single frame announcing it): the last sequences execute against the very end of the buffer */
+            unsigned long long const fcs = ZSTD_getFrameContentSize(F.p, fs); size_t const one = ZSTD_findFrameCompressedSize(F.p, fs);
+            if (fcs != ZSTD_CONTENTSIZE_UNKNOWN && fcs != ZSTD_CONTENTSIZE_ERROR && fcs < (64u << 20) && !ZSTD_isError(one) && one == fs) {
+                gbuf X = gb_alloc((size_t)fcs, 0);
+                {   PREP(); size_t const ret = ZSTD_decompressDCtx(d, X.p, X.size, F.p, fs); emit(id, "oneshot-exact", ret, X.p, ret); }
+                {   PREP(); ZSTD_DCtx_setParameter(d, ZSTD_d_stableOutBuffer, 1); size_t prod = 0; size_t const ret = stream_path(d, F.p, fs, X.p, X.size, &r, 1, &prod); emit(id, "stableout-exact", ret, X.p, prod); }
+                if (dd) { ZSTD_DCtx_reset(d, ZSTD_reset_session_and_parameters); ZSTD_DCtx_setParameter(d, ZSTD_d_windowLogMax, 31); size_t const ret = ZSTD_decompress_usingDDict(d, X.p, X.size, F.p, fs, dd); emit(id, "ddict-exact", ret, X.p, ret); }
+                if (!gb_ok(&X)) printf("D\t%s\texact-canary\tERR\t0\t0\n", id);
+                gb_free(&X); } }
         for (int k = 0; k < 2; k++) { PREP(); size_t prod = 0; size_t const ret = stream_path(d, F.p, fs, out, cap, &r, 0, &prod); char pn[16]; snprintf(pn, sizeof pn, "stream%d", k); emit(id, pn, ret, out, prod); }
         {   PREP(); ZSTD_DCtx_setParameter(d, ZSTD_d_stableOutBuffer, 1); size_t prod = 0; size_t const ret = stream_path(d, F.p, fs, out, cap, &r, 1, &prod); emit(id, "stableout", ret, out, prod); }
         {   /* streaming on a context whose internal buffers were sized by ANOTHER frame (the next file of the corpus: other window, other block sizes) */
